@@ -23,8 +23,53 @@ def mh_of(hs):
     return mh
 
 
+TWOBIT = {"A": 0, "C": 2, "G": 3, "T": 1}
+TWOBIT_RC = {"A": 1, "C": 3, "G": 2, "T": 0}
+
+
+def khash(kmer):
+    """nodegraph.rs `_hash`: the smaller of the 2-bit encodings of the k-mer and of its reverse complement"""
+    f = r = 0
+    for c in kmer:
+        f = (f << 2) | TWOBIT[c]
+    for c in reversed(kmer):
+        r = (r << 2) | TWOBIT_RC[c]
+    return min(f, r)
+
+
+class ViewMismatch(Exception):
+    pass
+
+
+def check_views(g, meta):
+    """whatever can be read about a filter through two routes must agree"""
+    sizes = g.hashsizes()
+    if meta is not None and g.ksize() != meta["ksize"]:
+        raise ViewMismatch("ksize()")
+    if sizes:
+        # (without tables expected_collisions aborts the process: finding C13.8)
+        want = (g.n_occupied() / min(sizes)) ** len(sizes)
+        got = g.expected_collisions
+        if abs(got - want) > 1e-12 * max(1.0, want):
+            raise ViewMismatch("expected_collisions")
+    if sizes and all(s % 32 for s in sizes):
+        raw = bytes(g.to_bytes(compression=0))
+        if raw[:6] != b"OXLI\x04\x02" or raw[10] != len(sizes) % 256:
+            raise ViewMismatch("header")
+        if int.from_bytes(raw[11:19], "little") != g.n_occupied():
+            raise ViewMismatch("n_occupied in the image")
+        if int.from_bytes(raw[19:27], "little") != sizes[0]:
+            raise ViewMismatch("first table size in the image")
+        nb = sizes[0] // 8 + 1
+        # (a hand-made image may claim any occupancy: only for filters made and filled through the API)
+        if meta is not None and sum(bin(b).count("1") for b in raw[27:27 + nb]) != g.n_occupied():
+            raise ViewMismatch("n_occupied != population count of table 0")
+
+
 def main():
     T = {}
+    M = {}
+    k_route = 0
     out = sys.stdout
     for line in sys.stdin:
         w = line.split()
@@ -35,13 +80,17 @@ def main():
         try:
             if op == "#":
                 T = {}
+                M = {}
+                k_route = 0
                 out.write("#\n")
                 continue
+            k_route += 1
             if op == "new":
                 r, ksize, size, nt = map(int, a)
                 if size == 0 or r >= 16:
                     raise KeyError
                 T[r] = Nodegraph(ksize, size, nt)
+                M[r] = {"ksize": ksize}
                 res = show(T[r])
             elif op == "count":
                 r, h = map(int, a)
@@ -61,6 +110,8 @@ def main():
                 r, s = map(int, a)
                 g, o = T[r], T[s]
                 g.update(o)
+                if M.get(s) is None or g.hashsizes() != o.hashsizes():
+                    M[r] = None
                 res = show(g)
             elif op == "show":
                 (r,) = map(int, a)
@@ -76,8 +127,23 @@ def main():
                 if r >= 16:
                     raise KeyError
                 g = T[s]
-                buf = bytes(g.to_bytes(compression=comp))
-                T[r] = Nodegraph.from_buffer(buf)
+                if k_route % 2 and comp == 0:
+                    # the file route: Nodegraph.save(path) / Nodegraph.load(path)
+                    import os
+                    import tempfile
+                    tmpd = os.path.join(os.path.dirname(os.path.dirname(os.path.dirname(os.path.abspath(__file__)))), ".build", "tmp")
+                    os.makedirs(tmpd, exist_ok=True)
+                    fd, fn = tempfile.mkstemp(prefix="c13ng_", dir=tmpd)
+                    os.close(fd)
+                    try:
+                        g.save(fn)
+                        T[r] = Nodegraph.load(fn)
+                    finally:
+                        os.remove(fn)
+                else:
+                    buf = bytes(g.to_bytes(compression=comp))
+                    T[r] = Nodegraph.from_buffer(buf)
+                M[r] = M.get(s)
                 res = show(T[r])
             elif op == "loadraw":
                 r = int(a[0])
@@ -86,13 +152,32 @@ def main():
                 buf = bytes(int(x) for x in a[1:])
                 g = Nodegraph.from_buffer(buf)
                 T[r] = g
+                M[r] = None
                 res = show(g)
+            elif op == "countk":
+                r, kmer = int(a[0]), a[1]
+                isnew = T[r].count(kmer)
+                if T[r].get(kmer) != 1 or T[r].get(khash(kmer)) != 1:
+                    raise ViewMismatch("get after count(kmer)")
+                res = f"ok {int(bool(isnew))} occ={T[r].n_occupied()}"
+            elif op == "getk":
+                r, kmer = int(a[0]), a[1]
+                v = T[r].get(kmer)
+                if v != T[r].get(khash(kmer)):
+                    raise ViewMismatch("get(kmer) != get(hash of kmer)")
+                res = f"ok {v}"
             else:
                 res = "bad-op"
         except KeyError:
             res = "bad-op"
         except BaseException as e:      # noqa: BLE001
             res = "err " + type(e).__name__
+        else:
+            try:
+                if op in ("new", "count", "addmany", "update", "rt", "loadraw", "countk") and res.startswith("ok"):
+                    check_views(T[int(a[0])], M.get(int(a[0])))
+            except BaseException as e:      # noqa: BLE001
+                res = "err " + type(e).__name__
         out.write(res + "\n")
     out.flush()
 
